@@ -1031,3 +1031,67 @@ func intRange(k types.BasicKind) (lo, hi int64, ok bool) {
 	}
 	return 0, 0, false
 }
+
+// DebugSiblings prints, for instructions handled by both ALUs, the provenance of the values written (exploration aid).
+func DebugSiblings(c *core.Ctx) {
+	c.Load(emuPkg, cdna3Pkg, instsPkg)
+	c.BuildSSA()
+	t := LoadInstTables(c)
+	prov := core.NewLocalProv(c)
+	byInst := map[string]map[string]string{}
+	for _, a := range []aluDesc{{emuPkg, "ALUImpl"}, {cdna3Pkg, "ALU"}} {
+		p := c.Pkg(a.pkg)
+		disp, _ := dispatchersOf(c, a)
+		for format, dn := range disp {
+			fd := findFuncDecl(p, a.typ+"."+dn)
+			if fd == nil {
+				continue
+			}
+			cases, _ := opcodeCases(p, fd)
+			for _, oc := range cases {
+				for _, cl := range oc.callees {
+					fn := c.SSAFunc(a.pkg, a.typ+"."+cl)
+					if fn == nil {
+						continue
+					}
+					var outs []string
+					for _, b := range fn.Blocks {
+						for _, in := range b.Instrs {
+							if name, cc := stateMethod(in); name == "WriteOperand" || name == "SetVCC" || name == "SetSCC" || name == "SetEXEC" {
+								outs = append(outs, name+":"+prov.Of(cc.Args[len(cc.Args)-1]))
+							}
+						}
+					}
+					sort.Strings(outs)
+					for _, op := range oc.values {
+						if r, ok := t.Lookup(format, op); ok {
+							if byInst[r.Name] == nil {
+								byInst[r.Name] = map[string]string{}
+							}
+							byInst[r.Name][a.typ] = strings.Join(outs, " ; ")
+						}
+					}
+				}
+			}
+		}
+	}
+	names := []string{}
+	for n := range byInst {
+		names = append(names, n)
+	}
+	sort.Strings(names)
+	same, diff := 0, 0
+	for _, n := range names {
+		m := byInst[n]
+		if len(m) < 2 {
+			continue
+		}
+		if m["ALUImpl"] == m["ALU"] {
+			same++
+			continue
+		}
+		diff++
+		fmt.Printf("== %s\n   gcn3 : %s\n   cdna3: %s\n", n, m["ALUImpl"], m["ALU"])
+	}
+	fmt.Println("same", same, "different", diff)
+}
